@@ -86,7 +86,7 @@ pub fn run(cx: &mut Ctx) {
     let mut seed = 0x9E3779B97F4A7C15u64;
     let mut next = move |m: usize| { seed ^= seed << 13; seed ^= seed >> 7; seed ^= seed << 17; (seed >> 11) as usize % m };
     let mut circuits: Vec<Vec<Gate>> = gates.iter().map(|g| vec![g.clone()]).collect();
-    for len in [2usize, 3, 5, 8] { for _ in 0..120 { circuits.push((0..len).map(|_| gates[next(gates.len())].clone()).collect()); } }
+    for len in [2usize, 3, 5, 8] { for _ in 0..120 * crate::scale() as usize { circuits.push((0..len).map(|_| gates[next(gates.len())].clone()).collect()); } }
     cx.check("adjoint_inverts", |cb| {
         for gs in &circuits {
             let c = circ(n, gs);
